@@ -157,9 +157,14 @@ fn library_case(ctx: &mut Ctx, idx: usize, kind: &'static str, n: usize) {
     // what was hashed is exactly the model's atom list
     let toks = ctx.ask(&format!("transcript {}", obj.item()));
     ctx.evals += 1;
-    match transcript_bytes(&book, &toks) {
-        Some(b) if b == bytes => ctx.count(&format!("transcript:{}:match", kind)),
-        _ => {
+    match match_transcript(ctx, &toks, &bytes) {
+        TMatch::Exact => ctx.count(&format!("transcript:{}:match", kind)),
+        TMatch::Layout(_) => ctx.count(&format!("transcript:{}:match-under-another-layout", kind)),
+        TMatch::Omits(missing) => {
+            ctx.count(&format!("transcript:{}:OMITS-ITEMS", kind));
+            ctx.disagreements.push(json!({"kind": "model-vs-implementation", "case": ctx.case_id, "what": format!("bytes hashed for a {} omit item(s) {:?} of the model's transcript", kind, missing), "op": format!("transcript {}", obj.item()), "recorded": hex::encode(&bytes)}));
+        }
+        TMatch::No => {
             ctx.count(&format!("transcript:{}:MISMATCH", kind));
             ctx.disagreements.push(json!({"kind": "model-vs-implementation", "case": ctx.case_id, "what": format!("bytes hashed for a {} differ from the model's transcript", kind), "op": format!("transcript {}", obj.item()), "recorded": hex::encode(&bytes)}));
         }
@@ -167,9 +172,10 @@ fn library_case(ctx: &mut Ctx, idx: usize, kind: &'static str, n: usize) {
     // every atom replaced: the challenge must change
     let positions: Vec<usize> = if obj.atoms.len() > 40 && !ctx.thorough() { (0..obj.atoms.len()).step_by(7).collect() } else { (0..obj.atoms.len()).collect() };
     for i in positions {
-        for alt in 0..2 {
+        for alt in 0..3 {
             let mut o2 = Obj { kind, n, atoms: obj.atoms.clone() };
-            o2.atoms[i].1 = if alt == 0 { obj.atoms[i].1 + Scalar::one() } else { nonzero(&mut ctx.prng) };
+            // +1, an independent value, and the negation (for a group element: same x-coordinate, other y)
+            o2.atoms[i].1 = match alt { 0 => obj.atoms[i].1 + Scalar::one(), 1 => nonzero(&mut ctx.prng), _ => -obj.atoms[i].1 };
             if o2.atoms[i].1 == obj.atoms[i].1 { continue; }
             ctx.evals += 1;
             match o2.hash(&book) {
